@@ -68,6 +68,11 @@ JObj(f) == [t |-> "object", f |-> f]
 JShallow(ty) == [t |-> ty, shallow |-> TRUE]     \* a value of which only the JSON type is tracked
 JIntAfter == [t |-> "integer", v |-> "after"]    \* an end line number greater than the start line number
 JRaise(exc, key) == [t |-> "raise", exc |-> exc, key |-> key]
+\* Module._filepath of a namespace package: one directory per portion, in SEARCH-PATH order.  "list" = one portion,
+\* "list2" = two portions whose search-path order is not the lexicographic one (the second sorts first), "list2s" = the
+\* same two in sorted order.  In the JSON the directories are tracked by their rank in sorted order.
+IsList(fp) == fp \in {"list", "list2", "list2s"}
+DirsJSON(fp) == JArr(IF fp = "list2" THEN <<JConst("dir2"), JConst("dir1")>> ELSE IF fp = "list2s" THEN <<JConst("dir1"), JConst("dir2")>> ELSE <<JStr>>)
 NoKV == <<>>
 Opt(cond, k, v) == IF cond THEN k :> v ELSE NoKV
 Keys(j) == DOMAIN j.f
@@ -344,7 +349,7 @@ AliasJSON(o, full) ==
 \*   is a namespace package none of whose directories is below the current directory
 FullRaises(m, cwdrel) ==
   IF m.filepath = "none" THEN JRaise("BuiltinModuleError", "filepath")
-  ELSE IF m.filepath = "list" /\ ~cwdrel THEN JRaise("ValueError", "relative_filepath")
+  ELSE IF IsList(m.filepath) /\ ~cwdrel THEN JRaise("ValueError", "relative_filepath")
   ELSE JNull
 
 \* Object.as_dict + Module/Class/Function/Attribute.as_dict.  `members` is the already encoded members
@@ -355,7 +360,7 @@ ObjJSON(o, m, cwdrel, full, members) ==
   ELSE JObj(
       ("kind" :> JConst(o.kind)) @@ ("name" :> JStr)
    @@ Opt(full, "path", JStr)
-   @@ Opt(full /\ o.kind # "module", "filepath", IF m.filepath = "list" THEN JArr(<<JStr>>) ELSE JStr)
+   @@ Opt(full /\ o.kind # "module", "filepath", IF IsList(m.filepath) THEN DirsJSON(m.filepath) ELSE JStr)
    @@ Opt(full, "relative_filepath", JStr)
    @@ Opt(full, "relative_package_filepath", JStr)
    @@ Opt(o.lineno # "none", "lineno", JInt)
@@ -365,7 +370,7 @@ ObjJSON(o, m, cwdrel, full, members) ==
    @@ ("members" :> members)
    \* Module.as_dict: the key is always there (even in minimal form)
    @@ Opt(o.kind = "module", "filepath",
-          IF o.filepath = "list" THEN JArr(<<JStr>>) ELSE IF o.filepath = "path" THEN JStr ELSE JNull)
+          IF IsList(o.filepath) THEN DirsJSON(o.filepath) ELSE IF o.filepath = "path" THEN JStr ELSE JNull)
    \* Class.as_dict
    @@ Opt(o.kind = "class", "bases", JArr([i \in 1..Len(o.bases) |-> EVJSON(o.bases[i])]))
    @@ Opt(o.kind \in {"class", "function"}, "decorators", JArr([i \in 1..Len(o.decorators) |-> DecJSON(o.decorators[i])]))
@@ -471,7 +476,10 @@ HookObject(j, sub) ==
                       !.doc = IF kind = "alias" THEN NoDoc ELSE LoadDoc(j),
                       !.labels = IF kind = "alias" THEN "empty" ELSE IF Len(Get(j, "labels").items) > 0 THEN "some" ELSE "empty"]
            \* _load_module: list -> [Path, ...] (namespace package), None (built-in module), else Path
-           o == CASE kind = "module" -> [base EXCEPT !.filepath = IF j.f["filepath"].t = "array" THEN "list"
+           o == CASE kind = "module" -> [base EXCEPT !.filepath = IF j.f["filepath"].t = "array"
+                                                                  \* [Path(path) for path in filepath]: the order is kept
+                                                                  THEN (IF j.f["filepath"] = DirsJSON("list2") THEN "list2"
+                                                                        ELSE IF j.f["filepath"] = DirsJSON("list2s") THEN "list2s" ELSE "list")
                                                                   ELSE IF j.f["filepath"].t = "null" THEN "none" ELSE "path"]
                   [] kind = "class" ->
                        [base EXCEPT !.lineno = Ty(Get(j, "lineno")), !.endlineno = Ty(Get(j, "endlineno")),
@@ -511,7 +519,8 @@ Decode(j) == LET r == DecodeFrom(j) IN IF r.ok THEN Okay(<<[r.chain[1] EXCEPT !.
 \* =================================================================================================
 \* 6. The case space
 \* =================================================================================================
-VARIABLES dtext,                                                  \* shape of the docstring text (DocTexts) or "na"
+VARIABLES nsparts,                                                \* namespace origin: "one" portion | "two" portions on two search paths given in non-sorted order | "na"
+          dtext,                                                  \* shape of the docstring text (DocTexts) or "na"
           guard,                                                  \* "none" | "typecheck" (defined under `if TYPE_CHECKING:`) | "stub" (exists in the merged .pyi only)
           dfield,                                                 \* field of a dataclass host: "na" | "plain" | "kw_true" | "kw_expr"
           part,                                                   \* "shape" | "expr" | "doc"
@@ -521,7 +530,7 @@ VARIABLES dtext,                                                  \* shape of th
           slot, spine, leaf,                                      \* expr part
           section,                                                \* doc part
           pc, chain, enc, dec, reenc, obs                         \* the run
-casevars == <<dtext, guard, dfield, part, origin, kind, host, mname, doc, cwdrel, bases, deco, pann, pdef, pdoc, ret, val, ann, where,
+casevars == <<nsparts, dtext, guard, dfield, part, origin, kind, host, mname, doc, cwdrel, bases, deco, pann, pdef, pdoc, ret, val, ann, where,
               alno, resolved, slot, spine, leaf, section>>
 vars == <<casevars, pc, chain, enc, dec, reenc, obs>>
 
@@ -548,6 +557,7 @@ SlotKind(s) == IF s \in {"class.bases", "class.decorator"} THEN "class"
 NA == "na"
 CaseChoice ==
      IF part = "shape" THEN
+       /\ nsparts \in IF origin = "namespace" THEN {"one", "two"} ELSE {NA}
        /\ kind \in (IF origin = "namespace" THEN {"root", "module", "function"}
                     ELSE IF origin = "builtin" THEN {"root", "class", "function", "attribute"}
                     ELSE {"root", "module", "class", "function", "attribute", "alias"})
@@ -599,7 +609,7 @@ CaseChoice ==
                        /\ val \in {NA, "str"} /\ ann \in {NA, "none"} /\ where = "container"
                      THEN DocTexts ELSE {NA}
      ELSE IF part = "expr" THEN
-       /\ origin = "static" /\ dtext = NA
+       /\ origin = "static" /\ dtext = NA /\ nsparts = NA
        /\ slot \in SlotSet /\ kind = SlotKind(slot)
        /\ host = "none" /\ mname = "x" /\ doc = "absent" /\ dfield = NA /\ guard = "none"
        /\ spine \in UNION {[1..n -> IF n > FullDepth THEN CoreSteps ELSE AllSteps] : n \in 0..(IF slot \in SpineSlots THEN MaxSpine ELSE 1)}
@@ -611,7 +621,7 @@ CaseChoice ==
        /\ origin \in DocOrigins
        /\ kind \in IF origin = "static" THEN {"root", "class", "function", "attribute"} ELSE {"root", "class", "function"}
        /\ section \in SectionKinds
-       /\ host = "none" /\ mname = (IF kind = "root" THEN "pkg" ELSE "x") /\ doc = "google" /\ dfield = NA /\ guard = "none" /\ dtext = NA
+       /\ host = "none" /\ mname = (IF kind = "root" THEN "pkg" ELSE "x") /\ doc = "google" /\ dfield = NA /\ guard = "none" /\ dtext = NA /\ nsparts = NA
        /\ bases = (IF kind = "class" THEN "none" ELSE NA) /\ deco = (IF kind \in {"class", "function"} THEN "none" ELSE NA)
        /\ pann = (IF kind = "function" THEN "nopar" ELSE NA) /\ pdef = NA /\ pdoc = FALSE
        /\ ret = (IF kind = "function" THEN "none" ELSE NA)
@@ -627,7 +637,7 @@ LineOf(o, k) == IF HasLines(o, k) THEN "int" ELSE "none"
 SlotEV == EV(MkExpr(spine, leaf), IF IsScalar(MkExpr(spine, leaf)) THEN "na" ELSE "container")
 
 Root == [Obj("module", "pkg") EXCEPT
-           !.filepath = IF origin = "builtin" THEN "none" ELSE IF origin = "namespace" THEN "list" ELSE "path",
+           !.filepath = IF origin = "builtin" THEN "none" ELSE IF origin = "namespace" THEN (IF nsparts = "two" THEN "list2" ELSE "list") ELSE "path",
            \* (every built-in module used as a witness has a docstring)
            !.doc = IF kind = "root" THEN DocOf(origin) ELSE IF origin = "builtin" THEN Doc(FALSE, "none", "text") ELSE NoDoc]
 Host == [Obj("class", "H") EXCEPT !.lineno = LineOf(origin, "class"), !.endlineno = LineOf(origin, "class")]
@@ -748,7 +758,7 @@ ExpressionsSame == (Done /\ obs.dec_ok) => obs.render_eq
 \* ---- declarative characterisation of where each clause holds (the recorded defects are the complements)
 CleanEncode == \A i \in 1..Len(MkChain) : MkChain[i].kind = "module" =>
                   /\ MkChain[i].filepath # "none"                          \* built-in module: full form raises
-                  /\ (MkChain[i].filepath = "list" => cwdrel)              \* namespace package seen from elsewhere
+                  /\ (IsList(MkChain[i].filepath) => cwdrel)              \* namespace package seen from elsewhere
 \* (since the decoder reads lineno with .get, builds the file path by type and dispatches on str values only,
 \*  every document Encode produces in minimal form is decodable)
 CleanDecode == TRUE
@@ -821,7 +831,7 @@ Clean_ExpressionsSame == IsClean => ExpressionsSame
 \* 9. Case emission
 \* =================================================================================================
 CaseRec ==
-  [dtext |-> dtext, guard |-> guard, dfield |-> dfield, part |-> part, origin |-> origin, kind |-> kind, host |-> host, mname |-> mname, doc |-> doc, cwdrel |-> cwdrel,
+  [nsparts |-> nsparts, dtext |-> dtext, guard |-> guard, dfield |-> dfield, part |-> part, origin |-> origin, kind |-> kind, host |-> host, mname |-> mname, doc |-> doc, cwdrel |-> cwdrel,
    bases |-> bases, deco |-> deco, pann |-> pann, pdef |-> pdef, pdoc |-> pdoc, ret |-> ret, val |-> val, ann |-> ann,
    where |-> where, alno |-> alno, resolved |-> resolved, slot |-> slot, spine |-> spine, leaf |-> leaf, section |-> section,
    clean |-> obs.clean,
